@@ -177,15 +177,16 @@ def runGet : List Act → Rec → Rec
   | .writeHeader c :: as, r => runGet as (r.writeHeader c)
   | .write n :: as, r => runGet as (r.write n)
 
-/-- Run the same script through `headResponse{size}` (a HEAD): `Write` only counts and sets
-Content-Length on the live header map; everything else is forwarded. -/
-def runHead : List Act → Nat → Rec → Rec
-  | [], _, r => r
-  | .setHeader k v :: as, sz, r => runHead as sz { r with hdr := r.hdr.set k v }
-  | .addHeader k v :: as, sz, r => runHead as sz { r with hdr := r.hdr.add k v }
-  | .delHeader k :: as, sz, r => runHead as sz { r with hdr := r.hdr.del k }
-  | .writeHeader c :: as, sz, r => runHead as sz (r.writeHeader c)
-  | .write n :: as, sz, r => runHead as (sz + n) { r with hdr := r.hdr.set hContentLength (natToBytes (sz + n)) }
+/-- Run the same script through `headResponse{size, wrote}` (a HEAD): `Write` only counts and sets
+Content-Length on the live header map and fixes the status (D23 repair: a later `WriteHeader` is
+ignored, as it is for GET); everything else is forwarded. -/
+def runHead : List Act → Nat → Bool → Rec → Rec
+  | [], _, _, r => r
+  | .setHeader k v :: as, sz, wr, r => runHead as sz wr { r with hdr := r.hdr.set k v }
+  | .addHeader k v :: as, sz, wr, r => runHead as sz wr { r with hdr := r.hdr.add k v }
+  | .delHeader k :: as, sz, wr, r => runHead as sz wr { r with hdr := r.hdr.del k }
+  | .writeHeader c :: as, sz, wr, r => runHead as sz true (if wr then r else r.writeHeader c)
+  | .write n :: as, sz, _, r => runHead as (sz + n) true { r with hdr := r.hdr.set hContentLength (natToBytes (sz + n)) }
 
 /-! ## TRACE helper -/
 
